@@ -716,7 +716,8 @@ class StyleProperties:
 
     @staticmethod
     def validate(value):
-      return isinstance(value, PaddingType)
+      return isinstance(value, PaddingType) \
+        and all(isinstance(v, LengthType) for v in (value.before, value.end, value.after, value.start))
 
 
   class Position(StyleProperty):
@@ -735,6 +736,8 @@ class StyleProperties:
     @staticmethod
     def validate(value: PositionType):
       return isinstance(value, PositionType) \
+        and isinstance(value.h_edge, PositionType.HEdge) \
+        and isinstance(value.v_edge, PositionType.VEdge) \
         and value.h_offset.units in (LengthType.Units.pct, LengthType.Units.px, LengthType.Units.c, LengthType.Units.rw)  \
         and value.v_offset.units in (LengthType.Units.pct, LengthType.Units.px, LengthType.Units.c, LengthType.Units.rh)
 
@@ -780,7 +783,11 @@ class StyleProperties:
 
     @staticmethod
     def validate(value):
-      return value == SpecialValues.none or isinstance(value, RubyReserveType)
+      return value == SpecialValues.none or (
+        isinstance(value, RubyReserveType)
+        and isinstance(value.position, RubyReserveType.Position)
+        and (value.length is None or isinstance(value.length, LengthType))
+      )
 
 
   class Shear(StyleProperty):
@@ -908,7 +915,11 @@ class StyleProperties:
 
     @staticmethod
     def validate(value):
-      return value == SpecialValues.none or isinstance(value, TextShadowType)
+      return value == SpecialValues.none or (
+        isinstance(value, TextShadowType)
+        and isinstance(value.shadows, (tuple, list))
+        and all(isinstance(s, TextShadowType.Shadow) for s in value.shadows)
+      )
 
 
   class UnicodeBidi(StyleProperty):
